@@ -72,13 +72,18 @@ type tcase struct {
 	s2s     bool
 	initial xmpp.SessionState
 	feats   []feat
-	adverts [][]advItem // initiator: advertisement per features list
-	selects []selection // receiver: selections in order
+	// the XML console is switched on (StreamConfig.TeeIn / TeeOut)
+	tee bool
+	// restarting features hand back a new layer around the connection (as a
+	// TLS or compression feature does) instead of the connection itself
+	wrapOnRestart bool
+	adverts       [][]advItem // initiator: advertisement per features list
+	selects       []selection // receiver: selections in order
 }
 
 func (tc tcase) String() string {
 	var sb strings.Builder
-	fmt.Fprintf(&sb, "recv=%v ws=%v s2s=%v initial=%v", tc.recv, tc.ws, tc.s2s, tc.initial)
+	fmt.Fprintf(&sb, "recv=%v ws=%v s2s=%v initial=%v xml-console=%v restart-hands-back-a-new-layer=%v", tc.recv, tc.ws, tc.s2s, tc.initial, tc.tee, tc.wrapOnRestart)
 	for _, f := range tc.feats {
 		fmt.Fprintf(&sb, "\n  %s", f)
 	}
@@ -118,6 +123,8 @@ var maskChoices = []xmpp.SessionState{0, 0, 0, xmpp.Secure, xmpp.Authn, xmpp.Sec
 func genCase(t *rapid.T) tcase {
 	tc := tcase{recv: rapid.Bool().Draw(t, "recv"), ws: rapid.IntRange(0, 3).Draw(t, "ws") == 0, s2s: rapid.Bool().Draw(t, "s2s")}
 	tc.initial = rapid.SampledFrom([]xmpp.SessionState{0, 0, xmpp.Secure, xmpp.Authn, xmpp.Secure | xmpp.Authn}).Draw(t, "initial")
+	tc.tee = rapid.IntRange(0, 3).Draw(t, "tee") == 0
+	tc.wrapOnRestart = rapid.IntRange(0, 2).Draw(t, "wrapOnRestart") == 0
 	n := rapid.IntRange(1, 5).Draw(t, "nfeats")
 	hasTLS := false
 	for k := 0; k < n; k++ {
@@ -350,6 +357,9 @@ func (r *run) features() []xmpp.StreamFeature {
 					mask |= xmpp.Ready
 				}
 				if f.restart {
+					if r.tc.wrapOnRestart {
+						return mask, struct{ io.ReadWriter }{conn}, nil
+					}
 					return mask, conn, nil
 				}
 				return mask, nil, nil
@@ -593,8 +603,13 @@ func execute(tc *tcase) outcome {
 			}
 		}
 	}
+	var teeIn, teeOut bytes.Buffer
 	cfg := func(*xmpp.Session, *xmpp.StreamConfig) xmpp.StreamConfig {
-		return xmpp.StreamConfig{Features: feats}
+		c := xmpp.StreamConfig{Features: feats}
+		if tc.tee {
+			c.TeeIn, c.TeeOut = &teeIn, &teeOut
+		}
+		return c
 	}
 	neg := xmpp.NewNegotiator(cfg)
 	if tc.ws {
